@@ -203,6 +203,11 @@ func AllocCheck(id string) {
 	Assert(m.TotalAlloc-allocBase <= uint64(allocLimit)*64+1<<20, id)
 }
 
+// RaceRecord / RaceCheck: engine-side race query over the recorded
+// synchronisation events; natively the harness is run under -race.
+func RaceRecord(on bool)  {}
+func RaceCheck(id string) {}
+
 func Unwind(n int)          {}
 func Flag(name string) bool { load(); return flags[name] }
 func Event(s string)        {}
